@@ -10,6 +10,7 @@ Oracles on the real functions:
 import numpy as np
 
 from .. import gens
+from ..monitors import thread_probe, in_process_pools
 from ..harness import watchdog, WatchdogTimeout, digest
 
 MANIFEST = {
@@ -134,8 +135,32 @@ def check_mask(ctx, case):
     x, io, eo, xo = case['x'], case['imf_opts'], case['envelope_opts'], case['extrema_opts']
     mk = dict(case['mask'])
     kw = dict(imf_opts=io, envelope_opts=eo, extrema_opts=xo, **mk)
+    auto = isinstance(mk['mask_freqs'], str)
+    if auto:
+        # session history: the same recording was sifted a moment ago with the same stop rule but another envelope / extrema setting
+        other_e = {'interp_method': 'pchip' if eo.get('interp_method') != 'pchip' else 'mono_pchip'}
+        other_x = dict(xo, parabolic_extrema=not xo.get('parabolic_extrema', False))
+        try:
+            S.mask_sift(x.copy(), max_imfs=2, **dict(kw, envelope_opts=other_e, extrema_opts=other_x))
+        except Exception:
+            pass
+        ctx.count('auto_mask_runs_after_a_run_with_other_stage_options')
     base, freqs = S.mask_sift(x.copy(), max_imfs=12, ret_mask_freq=True, **kw)
     ctx.case(digest(x, kw, 'mask'), base.ndim == 2 and base.shape[1] >= 2)
+    if auto and x.dtype.kind == 'f' and np.ptp(x) > 0:
+        # the first mask frequency is the one estimated from the first IMF extracted WITH the supplied options
+        from emd import spectra as SP
+        first, _ = S.get_next_imf(x[:, None], envelope_opts=eo, extrema_opts=xo, **io)
+        if mk['mask_freqs'] == 'zc':
+            z0 = int((np.diff(np.sign(first[:, 0])) != 0).sum()) / len(x) / 4
+        else:
+            _, IF, IA = SP.frequency_transform(first, 1, 'nht', smooth_phase=3)
+            z0 = np.average(IF, weights=IA)
+        ctx.count('first_mask_frequency_checks')
+        if abs(freqs[0] - z0) > 1e-12 * max(abs(z0), 1e-12):
+            ctx.violation('first-mask-frequency:' + mk['mask_freqs'], 'the first mask frequency %.6g is not the estimate %.6g obtained from the first IMF '
+                          'extracted with the supplied options (the layer is then not the documented masked extraction)' % (freqs[0], z0), case)
+            return
     if x.dtype.kind == 'i':
         if not int_vs_float(ctx, 'mask_sift', x, base, lambda v: S.mask_sift(v, max_imfs=12, **kw), case):
             return
@@ -157,6 +182,9 @@ def check_mask(ctx, case):
                               'previous columns (rel err %.3g)' % (k, err), case)
                 return
             ctx.count('peel_tolerance')
+    if auto:
+        # ... and another recording was sifted with the same options before the capped runs are made
+        S.mask_sift(np.asarray(x, dtype=float)[::-1].copy() * 1.5 + 0.1, max_imfs=2, **kw)
     for cap in range(1, min(K + 2, 12) + 1):
         out = S.mask_sift(x.copy(), max_imfs=cap, **kw)
         ctx.count('capped_runs')
@@ -263,7 +291,7 @@ def gen_case(rng, variant):
          'cap_sample': rng.integers(4, 40, 3)}
     if variant == 'mask':
         c['mask'] = {'mask_amp_mode': gens.pick(rng, ['abs', 'ratio_sig', 'ratio_imf']),
-                     'mask_freqs': (float(gens.pick(rng, [0.3, 0.2, 0.12])) if rng.random() < .6 else gens.pick(rng, [[0.3, 0.14, 0.07, 0.03, 0.015, 0.007], [.4, .2, .1, .05, .025, 0], [.3, 0.0, .1, .05]])),
+                     'mask_freqs': (gens.pick(rng, ['zc', 'if']) if rng.random() < .3 else float(gens.pick(rng, [0.3, 0.2, 0.12])) if rng.random() < .5 else gens.pick(rng, [[0.3, 0.14, 0.07, 0.03, 0.015, 0.007], [.4, .2, .1, .05, .025, 0], [.3, 0.0, .1, .05]])),
                      'mask_amp': (float(gens.pick(rng, [1, .5, 2])) if rng.random() < .6 else rng.uniform(.4, 2, 12)),
                      'nphases': int(gens.pick(rng, [1, 2, 4])), 'mask_step_factor': float(gens.pick(rng, [2, 3, 1.5]))}
     elif variant in ('ens', 'cens'):
@@ -287,7 +315,30 @@ def gen_case(rng, variant):
     return c
 
 
+def thread_cases(seed):
+    """Equally long channels mask-sifted (uncapped and capped) from different threads at the same time."""
+    from emd import sift as S
+    r = np.random.default_rng(seed)
+    n = int(gens.pick(r, [300, 1000, 3000]))
+    t = np.arange(n)
+    chans = [np.sin(2 * np.pi * t / float(r.uniform(8, 14))) + .5 * np.sin(2 * np.pi * t / float(r.uniform(40, 90))) + .2 * r.standard_normal(n) for _ in range(2)]
+    nph = int(gens.pick(r, [2, 4]))
+    calls = []
+    for ch, mf in zip(chans, ([.3, .1, .04], [.22, .08, .03])):
+        for cap in (3, 2):
+            calls.append((lambda v, f, c: (lambda: S.mask_sift(v.copy(), max_imfs=c, mask_freqs=f, nphases=nph)))(ch, mf, cap))
+    return calls, {'seed': int(seed), 'n': n, 'nphases': nph}
+
+
+def thread_check(ctx, seed):
+    calls, tcase = thread_cases(seed)
+    with in_process_pools():
+        return thread_probe(ctx, 'mask_sift (%d samples, %d phases)' % (tcase['n'], tcase['nphases']), calls, 6 if tcase['n'] > 1000 else 15, tcase)
+
+
 def run_shard(ctx):
+    if ctx.shard % 2 == 0:
+        thread_check(ctx, int(ctx.rng.integers(1 << 30)))
     rng = ctx.rng
     n = NCASES[ctx.tier] // ctx.nshards
     for i in range(n):
@@ -327,4 +378,9 @@ def finalize(agg, tier):
 
 
 def replay(ctx, case):
+    if case.get('kind') == 'threads':
+        for _ in range(5):
+            if not thread_check(ctx, case['seed']):
+                break
+        return
     CHECK[case['kind']](ctx, case)
